@@ -1,14 +1,14 @@
 SPECIFICATION Spec
 INVARIANT KnownEvent
-INVARIANT Step_Seed
-INVARIANT Step_Iterate
-INVARIANT Step_LoopRule
-INVARIANT Step_Final
 INVARIANT Cl_Law
 INVARIANT Cl_LawAtOwnComposition
 INVARIANT Cl_SelfConsistent
 INVARIANT Cl_VacuumExact
 INVARIANT Cl_PPIdentity
 INVARIANT Cl_Homogeneous
+INVARIANT Step_Seed
+INVARIANT Step_Iterate
+INVARIANT Step_LoopRule
+INVARIANT Step_Final
 INVARIANT Ref_Eval
 CHECK_DEADLOCK FALSE
